@@ -28,6 +28,9 @@ func (r *rec) Header() http.Header {
 	return http.Header{}
 }
 
+// Flush makes rec an http.Flusher, which the low-latency segment writer requires of its writer.
+func (r *rec) Flush() {}
+
 // patchHandlerFunc returns an MPD patch
 func (s *Server) patchHandlerFunc(w http.ResponseWriter, r *http.Request) {
 	origQuery := r.URL.RawQuery
